@@ -8,6 +8,8 @@
     Cache/Lazy.lean            lazily filled maps, sequential and as atomic actions with/without a lock
     Cache/Interleave.lean      threads × schedules
     Cache/YearCacheConc.lean   the year cache as atomic actions
+    Cache/ZoneCacheConc.lean, HebrewConc.lean, LruConc.lean   the other caches as atomic actions (LRU under its lock)
+    Cache/FormatInfo.lean      `_PyodaFormatInfo._get_format_info` on top of the LRU model
 
   ops (one history per line):
     ycache.run <cal-hex> y…            → `slot:validator:H|M` per query (the calendar is ignored: hit/miss does not
@@ -26,6 +28,10 @@ import PyodaModel.Cache.Lru
 import PyodaModel.Cache.Lazy
 import PyodaModel.Cache.Interleave
 import PyodaModel.Cache.YearCacheConc
+import PyodaModel.Cache.ZoneCacheConc
+import PyodaModel.Cache.HebrewConc
+import PyodaModel.Cache.LruConc
+import PyodaModel.Cache.FormatInfo
 
 namespace Pyoda.Cache
 
